@@ -191,7 +191,9 @@ def access_width(ctx, n_cases):
                         continue
                     res.count(f"windows:{label}")
                     lo, hi = r.addr["wire"], r.addr["wire"] + r.addr["wire_len"]
-                    touching = [a for a in accesses if a.addr < hi and a.addr + a.size > lo]
+                    # accesses issued from outside the executable's own code (libc memcpy/memset, func "?") move bytes without
+                    # interpreting them and are byte-order neutral by contract: only the runtime's own loads/stores are judged
+                    touching = [a for a in accesses if a.addr < hi and a.addr + a.size > lo and a.func != "?"]
                     res.count(f"wire_accesses:{label}", len(touching))
                     bad = [a for a in touching if a.size != 1]
                     wide += len(bad)
